@@ -353,6 +353,33 @@ func init() {
 				}
 			}
 		}
+		// unexported members, pointer-typed and non-nil ones included (whose pointer type may print itself):
+		// unknown or unexported member -> an error or empty output, never a panic, never another value
+		{
+			lbl, n := &c04lbl{"secret"}, 3
+			rv := c04priv{label: lbl, count: &n, name: "hidden-name", Label: &c04lbl{"public"}, list: []*c04lbl{lbl}}
+			extra := map[string]interface{}{"a": rv, "pa": &rv, "as": []c04priv{rv}, "am": map[string]c04priv{"k": rv}}
+			for _, recv := range []string{"a", "pa", "as[0]", "am[\"k\"]"} {
+				for _, f := range []string{"label", "label.Name", "count", "name", "list", "nilp", "Label.Name"} {
+					for _, form := range []string{"[<%= X %>]", "<% let q = X %>[<%= q %>]", "<%= for (i) in [1] { %>[<%= X %>]<% } %>"} {
+						tm := strings.Replace(form, "X", recv+"."+f, 1)
+						o := runRenderExtra(RCase{Tmpl: tm}, extra)
+						e.rep.Evaluations++
+						e.Count("unexported-members")
+						e.Distinct(tm)
+						rp := map[string]interface{}{"tmpl": tm, "observed": o}
+						switch {
+						case o.Class == "PANIC":
+							e.Violate("eval-panic@"+siteOf(o.Msg), fmt.Sprintf("Render panicked on %q: %s", tm, o.Msg), rp)
+						case f == "Label.Name" && (o.Class != "OK" || o.Out != "[public]"):
+							e.Violate("c11-navigation-fails", fmt.Sprintf("%s: Go yields %q, the template gave %q (%s %s)", tm, "public", o.Out, o.Class, firstLine(o.Msg)), rp)
+						case f != "Label.Name" && o.Class == "OK" && o.Out != "[]":
+							e.Violate("c11-other-element", fmt.Sprintf("%s: an unexported member cannot be read, the template rendered %q", tm, o.Out), rp)
+						}
+					}
+				}
+			}
+		}
 		// a method call whose receiver is reached through FIELDS of what a call or an index returned
 		// (X.M().Y.N(), x[i].Y.N()): Go calls N on Y.  (The parser's assignCallee overwrites the receiver
 		// of the last call with the call / index result: known finding c11-middle-segment-dropped.)
